@@ -587,6 +587,9 @@ func (a *pepAst) alt(r *rand.Rand) string {
 	s := ""
 	if a.epoch != "0" || r.Intn(12) == 0 {
 		s = lz(r, a.epoch) + "!"
+		if r.Intn(8) == 0 {
+			s = pick(r, "v", "V") + s // PEP 440 puts the v before the epoch; the library rejects it (F-C02-pypi-v-epoch)
+		}
 	} else if r.Intn(6) == 0 {
 		// packaging wants the v before the epoch, the library after it: only without an epoch do both accept it
 		s = pick(r, "v", "V")
